@@ -41,22 +41,6 @@ Proof.
 Qed.
 Print Assumptions C06_logical_unmatched_raises_refuted.
 
-(* Frame op Frame with equal labels, layouts [2-D int,int | float] and [int | 2-D float,float]: neither
-   block- nor reblock-compatible, so both operands go through TypeBlocks.values (float64) and the
-   int64 + int64 column "a" comes back as floats; column by column it would be ints. *)
-Theorem C06_values_path_coerces_refuted :
-  exists ta tb,
-    M_tb_binop_tb (np_op BAdd) ta tb =
-      Ok [[VFlt 6 1; VFlt 8 1]; [VFlt 6 1; VFlt 8 1]; [VFlt 3 1; VFlt 5 1]] /\
-    collect_cols (op_cols (np_op BAdd) (map snd (vflatten ta)) (map snd (vflatten tb))) =
-      Ok [[VInt 6; VInt 8]; [VFlt 6 1; VFlt 8 1]; [VFlt 3 1; VFlt 5 1]].
-Proof.
-  exists [mkb (DInt true 8) false [[VInt 1; VInt 2]; [VInt 3; VInt 4]]; mkb (DFlt 8) true [[VFlt 3 2; VFlt 5 2]]],
-         [mkb (DInt true 8) true [[VInt 5; VInt 6]]; mkb (DFlt 8) false [[VFlt 3 1; VFlt 4 1]; [VFlt 3 2; VFlt 5 2]]].
-  split; vm_compute; reflexivity.
-Qed.
-Print Assumptions C06_values_path_coerces_refuted.
-
 (* a result without columns cannot be rebuilt by from_blocks() without a shape reference *)
 Theorem C06_zero_column_result_raises_refuted :
   M_tb_binop_tb (np_op BAdd) [] [] = Err "ErrorInitTypeBlocks".
